@@ -8,6 +8,7 @@ the pinned one is `pixelInfoOf`.
 -/
 import DdsModel.Proofs.Header
 import DdsModel.Proofs.HeaderTables
+import DdsModel.Proofs.HeaderStruct
 import DdsModel.HeaderTables
 import DdsModel.Drv.C09
 namespace Dds.C09
@@ -175,6 +176,43 @@ theorem constructed_roundtrip (pi : Header → Option PixelInfo) (k : CtorKind) 
 
 example : ∃ h', (Header.new .volume 16 9 5 .BC1_UNORM).bind
     (·.applyOps [.withMipmaps, .withSize 7 300, .withMipmapCount 3]) = some h' := ⟨_, rfl⟩
+
+/-- The struct-level constructors `Dx9Header::new_*` / `Dx10Header::new_*` followed by ANY chain of the
+struct-level setters (`with_size`, `with_dimensions`, `with_mipmap_count`, `with_cube_map_faces`,
+`with_pixel_format`; `with_dxgi_format`, `with_resource_dimension`, `with_misc_flags`, `with_array_size`,
+`with_alpha_mode`) with arguments the Rust types can hold: the result is well-formed exactly when it does not
+combine `Texture3D` with an array size other than 1 — the one thing these setters can build that a DDS file
+cannot say (`from_raw` rejects it with `InvalidArraySizeForTexture3D`, or repairs it in permissive mode). -/
+theorem struct_builders_wf (h0 h' : Header) (ops : List StructOp)
+    (h0def : (∃ k w h d p, w < U32 ∧ h < U32 ∧ d < U32 ∧ p.WF ∧ h0 = .dx9 (Dx9Header.new k w h d p)) ∨
+             (∃ k w h d c, w < U32 ∧ h < U32 ∧ d < U32 ∧ dxgiValid c = true ∧
+                h0 = .dx10 (Dx10Header.new k w h d c)))
+    (hops : ∀ op ∈ ops, op.InRange) (e : h0.applyStructOps ops = some h') :
+    (h'.WF ↔ h'.ArrayOk) := by
+  have hwf0 : h0.WF := by
+    rcases h0def with ⟨k, w, h, d, p, hw, hh, hd, hp, rfl⟩ | ⟨k, w, h, d, c, hw, hh, hd, hv, rfl⟩
+    · exact Dx9Header.new_WF k w h d p hw hh hd hp
+    · exact Dx10Header.new_WF k w h d c hw hh hd hv
+  have h0' := Header.applyStructOps_WF0 ops ((Header.WF_iff h0).1 hwf0).1 hops e
+  rw [Header.WF_iff]
+  exact ⟨fun x => x.2, fun x => ⟨h0', x⟩⟩
+
+/-- ... hence every such header that a file can express survives serialisation (strict and permissive). -/
+theorem struct_builders_roundtrip (pi : Header → Option PixelInfo) (h0 h' : Header) (ops : List StructOp)
+    (h0def : (∃ k w h d p, w < U32 ∧ h < U32 ∧ d < U32 ∧ p.WF ∧ h0 = .dx9 (Dx9Header.new k w h d p)) ∨
+             (∃ k w h d c, w < U32 ∧ h < U32 ∧ d < U32 ∧ dxgiValid c = true ∧
+                h0 = .dx10 (Dx10Header.new k w h d c)))
+    (hops : ∀ op ∈ ops, op.InRange) (e : h0.applyStructOps ops = some h') (hok : h'.ArrayOk) :
+    Header.fromRaw pi ParseOptions.strict (h'.toRaw pi) = .ok h' ∧
+    Header.fromRaw pi (ParseOptions.newPermissive none) (h'.toRaw pi) = .ok h' :=
+  header_roundtrip pi h' ((struct_builders_wf h0 h' ops h0def hops e).2 hok)
+
+/-- the excluded combination is reachable (so the side condition is not vacuous), and a well-formed one too -/
+example : ∃ h', (Header.dx10 (Dx10Header.new .volume 4 4 2 28)).applyStructOps [.withArraySize 2] = some h' ∧
+    ¬ h'.ArrayOk := ⟨_, rfl, by decide⟩
+example : ∃ h', (Header.dx9 (Dx9Header.new .image 4 4 0 (.fourCC FOURCC_DXT5))).applyStructOps
+      [.withCubeMapFaces 0b100101, .withMipmapCount 3, .withDimensions 8 8 none] = some h' ∧ h'.WF :=
+  ⟨_, rfl, by decide⟩
 
 /-! ### DX9 <-> DX10 -/
 
